@@ -21,14 +21,10 @@ open XlVerif.Spec.C11 (Text Coord PyVal Stored FTok FForm SCell Sheet Target Tar
 theorem load_ok {wb : Workbook} {ig : List Text} {m : M} (h : load wb ig = .ok m) :
     m = buildRanges (linkCells (buildDefinedNames (readCells wb ig) (readDefinedNames wb))) := by
   unfold load at h
+  simp only at h
   split at h
   · cases h
-  · simp only at h
-    split at h
-    · cases h
-    · split at h
-      · cases h
-      · injection h with h; exact h.symm
+  · injection h with h; exact h.symm
 
 /-- The cells of the loaded model: the stored cells, back-linked to the names, then the placeholders. -/
 theorem load_cells_eq {wb : Workbook} {ig : List Text} {m : M} (h : load wb ig = .ok m) :
@@ -256,7 +252,7 @@ example : ToksOK [.lit "SUM".toList, .lit ['('], .pfx "'My Sheet'".toList, .cell
 
 /-- **ignored_sheets_contribute_nothing.** Every cell of the loaded model is either (address, value and
     formula of) a cell the reader produced from a sheet that is NOT ignored, or an empty placeholder
-    (`XLCell(address, '')`, no formula) for a member of an area some formula refers to.  In particular
+    (`XLCell(address, None)`, no formula) for a member of an area some formula refers to.  In particular
     nothing stored on an ignored sheet reaches the model. -/
 theorem ignored_sheets_contribute_nothing {wb : Workbook} {ig : List Text} {m : M}
     (h : load wb ig = .ok m) {k : Text} {x : XLCell} (hx : dget m.cells k = some x) :
@@ -351,12 +347,12 @@ theorem names_bound {wb : Workbook} {ig : List Text} {m : M} (h : load wb ig = .
 /-! ### `names_bound` against the statement -/
 
 /-- **names_bound_spec_partial.**  GOAL (full strength, refuted for this model — counter-example below,
-    `'Cost$'!$A$1`): *for every visible defined name with a cell or area target the model's binding is the
-    statement's (`Spec.C11.binding`)*.  Proved: the same for every target inside `GoodTarget` (sheet name
-    non-empty, without `$`, `!`, `:`, without a blank at either end, not beginning with an apostrophe —
-    apostrophes inside the name are fine since the repair of D1101): a name for a loaded cell is bound to
-    that cell of the model, a name for an area is bound to the `XLRange` of that area with exactly the
-    members the statement lists. -/
+    `' lead'!$A$1:$A$2`): *for every visible defined name with a cell or area target the model's binding is
+    the statement's (`Spec.C11.binding`)*.  Proved: the same for every target inside `GoodTarget` (sheet name
+    non-empty, no blank at either end, not beginning with an apostrophe, without `:` and `,`) — `$`, `!` and
+    apostrophes inside the sheet name are covered since the repairs D0302, D1102, D1101: a name for a loaded
+    cell is bound to that cell of the model, a name for an area is bound to the `XLRange` of that area with
+    exactly the members the statement lists. -/
 theorem names_bound_spec_partial {wb : Workbook} {ig : List Text} {m : M} (h : load wb ig = .ok m)
     (hwf : ∀ sh ∈ wb.sheets, SheetWF sh) (hn : ((readDefinedNames wb).map Prod.fst).Nodup)
     {d : DefName} (hd : d ∈ wb.names) {t : Target} (ht : d.target = .ref t) (hg : GoodTarget t) :
@@ -374,12 +370,12 @@ theorem names_bound_spec_partial {wb : Workbook} {ig : List Text} {m : M} (h : l
       unfold readDefinedNames
       apply List.mem_filterMap.mpr
       refine ⟨d, hd, ?_⟩
-      have hnr : Model.C11.Target.text t ≠ "#REF!".toList := targetText_ne_ref t hg.2.1
+      have hnr : Model.C11.Target.text t ≠ "#REF!".toList := targetText_ne_ref t
       simp only [ht, targetText, hh, Bool.not_false, Bool.true_and, decide_eq_true_eq]
       rw [if_pos hnr]
     have hnb := names_bound h hn hmem
     rw [normAddress_good t hg] at hnb
-    obtain ⟨hne, _, hb, hc, ha, hst, h1, h2, h3⟩ := hg
+    obtain ⟨hne, hc, _, ha, hst, h1, h2, h3⟩ := hg
     have hcolon_bare : ∀ c : Coord, ':' ∉ bare c := fun c hx => (bare_chars c _ hx).2.2.1 rfl
     cases hs : t.snd with
     | none =>
@@ -421,28 +417,34 @@ theorem names_bound_spec_partial {wb : Workbook} {ig : List Text} {m : M} (h : l
       rw [hr]
       have hrr : resolveRanges (Spec.C11.Target.address t) = (t.sheet, Spec.C11.members t.sheet t.c1 c2) := by
         rw [haddr]
-        exact resolveRanges_area t.sheet t.c1 c2 hne hb (resolveSheet_plain _ ha hst) h1 h2 hc2.1 hc2.2
+        exact resolveRanges_area t.sheet t.c1 c2 hne (resolveSheet_plain _ ha hst) h1 h2 hc2.1 hc2.2
       simp [mkRange, hrr]
 
-/-! ### Loading raises in three situations only -/
+/-! ### Loading does not raise -/
 
-/-- **load_total_partial.**  GOAL (full strength, refuted for this model and for the code, finding D1102):
-    `∀ wb ig, ∃ m, load wb ig = .ok m` — every workbook loads.  Counter-example below (`bangWb`): a sheet
-    whose name contains `!` makes `XLCell.__post_init__` raise ValueError.  Proved: loading succeeds
-    whenever no loaded sheet name contains `!`, no area name has two `!` and no area name is empty
-    (reversed corners). -/
-theorem load_total_partial (wb : Workbook) (ig : List Text)
-    (h1 : bangCrash wb ig = false) (h2 : rangeBangCrash (readDefinedNames wb) = false)
-    (h3 : emptyRangeCrash (buildDefinedNames (readCells wb ig) (readDefinedNames wb)) = false) :
+/-- **load_total.**  Every workbook loads — whatever its sheet names contain (`!` included, repair D1102) —
+    as long as no visible name is an area without rows (reversed corners, which SpreadsheetML never
+    stores: `link_cells_to_defined_names` raises "This isn't a dim2 array" for those; example below). -/
+theorem load_total (wb : Workbook) (ig : List Text)
+    (h : ∀ d ∈ readDefinedNames wb, (normAddress d.2).contains ':' = true →
+      (mkRange (normAddress d.2) d.1).cells ≠ []) :
     ∃ m, load wb ig = .ok m := by
-  unfold load; simp [h1, h2, h3]
+  have h0 : NoEmptyArea (readCells wb ig) := by
+    intro k r hk; simp [readCells] at hk
+  have h3 := emptyRangeCrash_false_of _ (buildDefinedNames_noEmptyArea _ _ h0 h)
+  unfold load; simp [h3]
 
-/-- counter-example to the full-strength goal (D1102), kernel-checked. -/
-example : load Examples.bangWb [] = .error .valueError := by decide +kernel
+/-- regression for finding D1102 (fixed in /repo, commit db75663): a sheet named `A!B` loads and its cell is
+    addressed `A!B!A1`. -/
+example : ((load Examples.bangWb []).toOption.map fun m => dkeys m.cells) = some ["A!B!A1".toList] := by
+  decide +kernel
 
-/-- the guards of `load_total_partial` are met by an ordinary workbook. -/
-example : bangCrash Examples.exWb [] = false ∧ rangeBangCrash (readDefinedNames Examples.exWb) = false ∧
-    emptyRangeCrash (buildDefinedNames (readCells Examples.exWb []) (readDefinedNames Examples.exWb)) = false := by
+/-- the hypothesis of `load_total` is met by an ordinary workbook … -/
+example : ∀ d ∈ readDefinedNames Examples.exWb, (normAddress d.2).contains ':' = true →
+    (mkRange (normAddress d.2) d.1).cells ≠ [] := by decide +kernel
+/-- … and is needed: an area name with reversed rows makes loading raise. -/
+example : load { sst := [], sheets := [], names := [⟨"r".toList, false,
+    .ref ⟨"S".toList, false, true, ⟨1, 3⟩, true, some (true, ⟨1, 1⟩, true)⟩⟩] } [] = .error .other := by
   decide +kernel
 
 /-! ### the hypotheses of the theorems above are met by an ordinary workbook -/
@@ -452,8 +454,7 @@ example : ((cellEntries Examples.exWb []).map Prod.fst).Nodup := by decide +kern
 example : ((readDefinedNames Examples.exWb).map Prod.fst).Nodup := by decide +kernel
 example : (Examples.exWb.sheets.map (·.name)).Nodup ∧ ∀ sh ∈ Examples.exWb.sheets, (sh.cells.map (·.coord)).Nodup := by
   decide +kernel
-example : ∃ m, load Examples.exWb ["S2".toList] = .ok m :=
-  load_total_partial _ _ (by decide +kernel) (by decide +kernel) (by decide +kernel)
+example : ∃ m, load Examples.exWb ["S2".toList] = .ok m := load_total _ _ (by decide +kernel)
 /-- the member `B2` of the group whose master `A2` holds `A1+$A$1` shows `=B1+$A$1`. -/
 example : ((load Examples.exWb []).toOption.bind fun m => (dget m.cells "My Sheet!B2".toList).bind
     fun c => c.formula.map (·.formula)) = some "=B1+$A$1".toList := by decide +kernel
@@ -474,16 +475,24 @@ example : ((load Examples.aposWb []).toOption.map fun m => dget m.names "ap".toL
       = some (some (.cell "It's!A1".toList))
     ∧ Spec.C11.bindings Examples.aposWb [] = [("ap".toList, .cell "It's!A1".toList)] := by decide +kernel
 
-/-- the guard of `names_bound_spec_partial` is met by the names of ordinary workbooks, apostrophes
-    included. -/
+/-- the guard of `names_bound_spec_partial` is met by the names of ordinary workbooks — apostrophes, `$`
+    and `!` in the sheet name included. -/
 example : GoodTarget ⟨"My Sheet".toList, true, true, ⟨1, 1⟩, true, some (true, ⟨2, 3⟩, true)⟩ := by decide +kernel
 example : GoodTarget ⟨"It's".toList, true, true, ⟨1, 1⟩, true, none⟩ := by decide +kernel
+example : GoodTarget ⟨"US$".toList, true, true, ⟨1, 1⟩, true, none⟩ ∧
+    GoodTarget ⟨"A!B".toList, true, true, ⟨1, 1⟩, true, some (true, ⟨1, 2⟩, true)⟩ := by decide +kernel
+
+/-- regressions for D0302 and D1102 (fixed): a `$` or `!` of the sheet name survives normalisation. -/
+example : normAddress (targetText (.ref ⟨"US$".toList, true, true, ⟨1, 1⟩, true, none⟩)) = "US$!A1".toList
+    ∧ normAddress (targetText (.ref ⟨"A!B".toList, true, true, ⟨1, 1⟩, true, some (true, ⟨1, 2⟩, true)⟩))
+      = "A!B!A1:A2".toList := by decide +kernel
 
 /-- kernel-checked counter-example to the full-strength goal of `names_bound_spec_partial` (outside the
-    guard): `build_defined_names` drops every `$` of the target text, also those of the sheet name, so
-    `'Cost$'!$A$1` is looked up as `Cost!A1`. -/
-example : ¬ GoodTarget ⟨"Cost$".toList, true, true, ⟨1, 1⟩, true, none⟩ := by decide +kernel
-example : normAddress (targetText (.ref ⟨"Cost$".toList, true, true, ⟨1, 1⟩, true, none⟩)) = "Cost!A1".toList := by
-  decide +kernel
+    guard): `resolve_sheet` strips blanks, so the area name `' lead'!$A$1:$A$2` is bound to cells of a sheet
+    `lead` that does not exist. -/
+example : ¬ GoodTarget ⟨" lead".toList, true, true, ⟨1, 1⟩, true, some (true, ⟨1, 2⟩, true)⟩ := by decide +kernel
+example : (mkRange (normAddress (targetText
+    (.ref ⟨" lead".toList, true, true, ⟨1, 1⟩, true, some (true, ⟨1, 2⟩, true)⟩))) "n".toList).cells
+      = [["lead!A1".toList], ["lead!A2".toList]] := by decide +kernel
 
 end XlVerif.Props.C11
